@@ -10,6 +10,10 @@
 //                "dtype_unknown":bool}
 //     the real Oomd::run loop is driven N ticks (interposed sigtimedwait = tick boundary)
 //     -> {"r":"ok"|"throws", "kills":[[pid,sig],...], "opens":[n per tick]}
+// kind "ctx":   {"cgroups": {"A": {file: content}, "A/B": {...}, ...}, "faults":[{"cg":"A/B","file":"memory.current",
+//                "state":"absent|empty|denied|isdir"}], "target":"A/B", "ticks":2}
+//     every accessor of the real CgroupContext of `target` (through a real OomdContext), once per tick
+//     -> {"ticks":[{"currentUsage":"ok|unavailable|throws", ...}, ...]}
 #include "common.h"
 #include "vclock.h"
 #include "world.h"
@@ -440,6 +444,88 @@ void doTick(const Json::Value& sc, Json::Value& out) {
   vh::rmrf(top);
 }
 
+template <typename T>
+std::string clsOf(const std::optional<T>& o) { return o ? "ok" : "unavailable"; }
+
+void doCtx(const Json::Value& sc, Json::Value& out) {
+  std::string top = vh::freshDir("cx");
+  g_deny.clear();
+  const auto& cgs = sc["cgroups"];
+  for (const auto& name : cgs.getMemberNames()) {
+    vh::mkdirs(top + "/" + name);
+    for (const auto& f : cgs[name].getMemberNames()) vh::writeFile(top + "/" + name + "/" + f, cgs[name][f].asString());
+  }
+  for (const auto& f : sc["faults"]) {
+    std::string file = top + "/" + f["cg"].asString() + "/" + f["file"].asString();
+    std::string st = f["state"].asString();
+    if (st == "absent") ::unlink(file.c_str());
+    else if (st == "empty") vh::writeFile(file, "");
+    else if (st == "denied") g_deny.insert(file);
+    else if (st == "isdir") { ::unlink(file.c_str()); vh::mkdirs(file); }
+    else if (st == "content") vh::writeFile(file, f["content"].asString());
+  }
+  g_root = top;
+  Json::Value ticks(Json::arrayValue);
+  {
+    OomdContext ctx;
+    CgroupPath target(top, sc["target"].asString());
+    int n = sc.get("ticks", 2).asInt();
+    for (int t = 0; t < n; t++) {
+      if (t > 0) ctx.refresh();
+      Json::Value row(Json::objectValue);
+      auto cg = ctx.addToCacheAndGet(target);
+      if (!cg) { row["_ctx"] = "unavailable"; ticks.append(row); continue; }
+      const CgroupContext& c = cg->get();
+      auto acc = [&](const char* name, auto fn) {
+        try {
+          row[name] = fn();
+        } catch (const std::exception& e) {
+          row[name] = "throws";
+          row[std::string(name) + "_what"] = exName();
+        } catch (...) {
+          row[name] = "throws";
+        }
+      };
+      acc("currentUsage", [&] { return clsOf(c.current_usage()); });
+      acc("swapUsage", [&] { return clsOf(c.swap_usage()); });
+      acc("swapMax", [&] { return clsOf(c.swap_max()); });
+      acc("memoryLow", [&] { return clsOf(c.memory_low()); });
+      acc("memoryMin", [&] { return clsOf(c.memory_min()); });
+      acc("memoryHigh", [&] { return clsOf(c.memory_high()); });
+      acc("memoryHighTmp", [&] { return clsOf(c.memory_high_tmp()); });
+      acc("memoryMax", [&] { return clsOf(c.memory_max()); });
+      acc("nrDying", [&] { return clsOf(c.nr_dying_descendants()); });
+      acc("isPopulated", [&] { return clsOf(c.is_populated()); });
+      acc("oomGroup", [&] { return clsOf(c.oom_group()); });
+      acc("memPressure", [&] { return clsOf(c.mem_pressure()); });
+      acc("memPressureSome", [&] { return clsOf(c.mem_pressure_some()); });
+      acc("ioPressure", [&] { return clsOf(c.io_pressure()); });
+      acc("ioPressureSome", [&] { return clsOf(c.io_pressure_some()); });
+      acc("memoryStat", [&] { return clsOf(c.memory_stat()); });
+      acc("ioStat", [&] { return clsOf(c.io_stat()); });
+      acc("anonUsage", [&] { return clsOf(c.anon_usage()); });
+      acc("fileUsage", [&] { return clsOf(c.file_usage()); });
+      acc("shmemUsage", [&] { return clsOf(c.shmem_usage()); });
+      acc("pgScanCumulative", [&] { return clsOf(c.pg_scan_cumulative()); });
+      acc("pgScanRate", [&] { return clsOf(c.pg_scan_rate()); });
+      acc("ioCostCumulative", [&] { return clsOf(c.io_cost_cumulative()); });
+      acc("ioCostRate", [&] { return clsOf(c.io_cost_rate()); });
+      acc("averageUsage", [&] { return clsOf(c.average_usage()); });
+      acc("memoryGrowth", [&] { return clsOf(c.memory_growth()); });
+      acc("memoryProtection", [&] { return clsOf(c.memory_protection()); });
+      acc("effectiveUsage", [&] { return clsOf(c.effective_usage()); });
+      acc("effectiveSwapMax", [&] { return clsOf(c.effective_swap_max()); });
+      acc("effectiveSwapFree", [&] { return clsOf(c.effective_swap_free()); });
+      acc("effectiveSwapUtil", [&] { return clsOf(c.effective_swap_util_pct()); });
+      ticks.append(row);
+    }
+  }
+  out["ticks"] = ticks;
+  g_root.clear();
+  g_deny.clear();
+  vh::rmrf(top);
+}
+
 } // namespace
 
 int main() {
@@ -451,6 +537,7 @@ int main() {
     if (k == "reader") doReader(sc, out);
     else if (k == "dtype") doDtype(sc, out);
     else if (k == "tick") doTick(sc, out);
+    else if (k == "ctx") doCtx(sc, out);
     else out["outcome"] = "bad-kind";
   });
   ::unlink(kmsg.c_str());
